@@ -65,6 +65,11 @@ def main():
         root = tempfile.mkdtemp(prefix="drvstore_")
         state = {}
         try:
+            if s.get("gate"):
+                from dds.codec import codec_registry
+                codec_registry()
+                import fsgate
+                fsgate.install([os.path.join(root, "internal"), os.path.join(root, "data")], mode="trace")
             store = mk(s["store"], root, state)
             cap = s["cap"]
             wrapped = None
@@ -84,6 +89,10 @@ def main():
                 if wrapped is not None:
                     lens.append(len(wrapped._cache._cache))
             entry = {"outs": outs, "lens": lens}
+            if s.get("gate"):
+                import fsgate
+                entry["gate_log"] = fsgate.log()
+                fsgate.STATE["mode"] = "off"
             if s.get("listing"):
                 # every file / link created under the data directory, with its resolved location
                 if s["store"] == "local":
